@@ -56,7 +56,7 @@ class Unit:
 
     def __init__(self, src, config='base', defines=(), stubs=None, noinline=(), threads=False,
                  max_node_type=None, nondet_init=False, extra_glue=(), assume_as_assert=False, extern_c=(),
-                 alwaysinline=(), opt_level='-O1'):
+                 alwaysinline=(), opt_level='-O1', cdefs=()):
         self.src = src if os.path.isabs(src) else os.path.join(VERIF, 'harness', src)
         self.config = config
         self.defines = list(defines)
@@ -70,8 +70,9 @@ class Unit:
         self.assume_as_assert = assume_as_assert
         self.extern_c = list(extern_c)
         self.opt_level = opt_level
+        self.cdefs = list(cdefs)
         key = json.dumps([self.src, config, self.defines, self.stubs, self.noinline, self.alwaysinline, threads, max_node_type,
-                          nondet_init, self.extra_glue, assume_as_assert, self.extern_c, opt_level], sort_keys=True)
+                          nondet_init, self.extra_glue, assume_as_assert, self.extern_c, opt_level, self.cdefs], sort_keys=True)
         self.key = os.path.splitext(os.path.basename(src))[0] + '-' + config + '-' + hashlib.sha1(key.encode()).hexdigest()[:8]
         self.built = False
         self.info = {}
@@ -117,6 +118,8 @@ class Unit:
         c = ir2c.translate(mod, opts)
         if self.nondet_init:
             c = '#define IR2C_NONDET_INIT 1\n' + c
+        for d in self.cdefs:
+            c = '#define %s\n' % d.replace('=', ' ', 1) + c
         for g in [os.path.join(HERE, 'glue.c')] + self.extra_glue:
             c += '\n' + open(g if os.path.isabs(g) else os.path.join(VERIF, 'harness', g)).read()
         open(cfile, 'w').write(c)
